@@ -11,7 +11,13 @@ ACCEPTS_LIMIT = {"sync", "concurrent", "tf", "paths"}
 
 def spec_select(shards, filt, k, n):
     """The property text on the reference shard list [(examples, meta)]: indices selected, or None = error."""
-    idx = [i for i, (_e, m) in enumerate(shards) if filt is None or m == filt]
+    def keep(e, m):
+        if filt is None:
+            return True
+        if isinstance(filt, dict):
+            return len(e) >= filt["nex_ge"] if "nex_ge" in filt else len(e) == filt["nex_eq"]
+        return m == filt
+    idx = [i for i, (e, m) in enumerate(shards) if keep(e, m)]
     if not idx:
         return None
     if k:
@@ -37,6 +43,8 @@ def jobs_for(ctx, n):
             base = {"iface": iface, "split": 0, "shuffle": 0, "repeat": False, "file_parallelism": 2, "shards": None, "filter": None}
             reqs.append(dict(base, shards=2))
             reqs.append(dict(base, filter=rng.choice([1, 2])))
+            # a predicate on something other than the metadata: shards of one metadata value may get different verdicts
+            reqs.append(dict(base, filter=rng.choice([{"nex_ge": rng.choice([2, 3])}, {"nex_eq": rng.choice([1, 2, 3])}])))
             if iface in ACCEPTS_LIMIT:
                 reqs.append(dict(base, limit=1))
             for _k in range(2 if ctx.quick else 6):
@@ -47,7 +55,7 @@ def jobs_for(ctx, n):
                 reqs.append(q)
         reqs.append({"iface": "paths_seq", "split": 0, "shuffle": 0, "repeat": False, "filters": [rng.choice([0, 1, 2, 3, 9, None]) for _ in range(6)]})
         reqs.append({"iface": "paths_seq", "split": 0, "shuffle": 0, "repeat": False, "seq": [
-            {"filter": rng.choice([None, None, None, 1, 2]), "shards": rng.choice([None, 1, 2, 3, 50]), "limit": rng.choice([None, None, 1, 2])} for _ in range(6)]})
+            {"filter": rng.choice([None, None, None, 1, 2, {"nex_ge": 2}, {"nex_eq": 1}]), "shards": rng.choice([None, 1, 2, 3, 50]), "limit": rng.choice([None, None, 1, 2])} for _ in range(6)]})
         jobs.append({"dataset": spec, "requests": reqs})
     return jobs
 
@@ -108,8 +116,9 @@ def run(ctx):
                 ctx.report("selection-error", f"{q}: {o['error']}", {"job": one})
                 continue
             if q["iface"] == "paths":
-                mcases.append(([m for _e, m in shards], q.get("filter"), q.get("shards"), q.get("limit")))
-                mexpect.append((o["out"], one))
+                if not isinstance(q.get("filter"), dict):
+                    mcases.append(([m for _e, m in shards], q.get("filter"), q.get("shards"), q.get("limit")))
+                    mexpect.append((o["out"], one))
                 got, exp = o["out"], want
             else:
                 got, exp = o["out"], [x for i in want for x in shards[i][0]]
@@ -146,7 +155,7 @@ def run(ctx):
             "the forwarding table is read from keyword arguments of the calls (a renamed or positional pass-through fails closed)",
             "that the forwarded option has its effect inside tf.data / Rust is validated on the implementation only"],
         "evaluations": runs, "distinct_nontrivial": len(nontrivial),
-        "rule": "datasets with metadata groups (3..12 shards, values 0..2) x {paths, sync, concurrent, async, rust, tf} x shards in {None,1,2,3,5,50} x predicate selecting none/some/all x "
+        "rule": "datasets with metadata groups (3..12 shards, values 0..2) x {paths, sync, concurrent, async, rust, tf} x shards in {None,1,2,3,5,50} x predicate selecting none/some/all (by metadata value, or by the recorded number of examples so that shards sharing metadata get different verdicts) x "
                 "custom_metadata_type_limit in {None,1,2,3,50}, plus sequences of 6 selections (predicate / shards / limit) on ONE handle; expected result = the property text evaluated on the independently decoded shard list",
         "model_cases": len(mcases), "model_vs_impl_disagreements": dis, "traces_validated_against_impl": len(mcases) - dis,
     })
